@@ -479,6 +479,8 @@ type Src struct {
 	Calls []ProdCall
 	// AfterCall runs on the producer's actor right after each call returned
 	AfterCall func(c *ProdCall)
+	// SubHook runs at the start of the n-th subscription (inside the subscribe function)
+	SubHook func(n int)
 }
 
 // ProdCall is one producer-side call into the library.
@@ -623,6 +625,9 @@ func (s *Src) Obs() ro.Observable[int] {
 		sub := &srcSub{}
 		s.subs = append(s.subs, sub)
 		s.env.K.Log(fmt.Sprintf("src%d subscribe #%d", s.ID, n))
+		if s.SubHook != nil {
+			s.SubHook(n)
+		}
 		if ns := len(s.env.Sc.Sources); ns > 0 && s.ID%ns == 0 {
 			s.env.Call("src.subscribe") // the subscribe function is user code too (C07)
 		}
